@@ -197,6 +197,11 @@ fn enumerate_c19(cli: &Cli, r: &Report) {
     for c in [p / 10, p / 2, p, 3 * p, 13 * p, 50 * p, 101 * p, 10_000 * p] {
         models.push((format!("constant {c}"), vec![c]));
     }
+    // constants whose doubling lands strictly between 100 and 101 precisions: the rule divides (floor),
+    // so such a sample still counts as "within 100 times the precision"
+    for c in [100 * p + 1, 100 * p + p / 2, 101 * p - 1, 50 * p + 300, 25 * p + 200, 785] {
+        models.push((format!("constant {c}"), vec![c]));
+    }
     if cli.thorough {
         models.push(("constant 1".into(), vec![1]));
         models.push(("constant 7".into(), vec![7]));
